@@ -171,7 +171,7 @@ def _hscale_post(h, other, recompute, pre, res):
     if other is None:
         if pre["cached"] is not None and not recompute:
             counters["evals_hist_scale_cached"] += 1
-            if not (res == pre["cached"]):
+            if not (res == pre["cached"] or (res != res and pre["cached"] != pre["cached"])):
                 _rep("hist-scale-cached-value-not-returned",
                      "scale() returned %r, stored scale was %r" % (res, pre["cached"]))
             return
